@@ -32,21 +32,7 @@ fn serve() {
 }
 
 pub fn gen_case(r: &mut Rng) -> CaseReq {
-    let n_ids = 1 + r.below(3);
-    let names = ["A", "B", "C", "D"];
-    let mut det: Vec<(String, Yaml)> = vec![];
-    for i in 0..n_ids {
-        det.push((names[i].to_string(), gen::gen_identifier(r)));
-    }
-    let ids: Vec<String> = det.iter().map(|(k, _)| k.clone()).collect();
-    let cond = gen::gen_cond(r, &ids, 0);
-    let text = gen::print_cond(&cond, r, 10);
-    let pos = r.below(det.len() + 1);
-    det.insert(pos, ("condition".to_string(), gen::ys(&text)));
-    let docs: Vec<Yaml> = (0..4).map(|_| gen::gen_doc(r)).collect();
-    let tps = if r.chance(30) { vec![gen::gen_doc(r)] } else { vec![] };
-    let tns = if r.chance(30) { vec![gen::gen_doc(r), Yaml::Number(5.into())] } else { vec![] };
-    CaseReq { optimised: false, det, tps, tns, docs, masks: (0..16).collect() }
+    check::gen_case(r, (0..16).collect(), 4)
 }
 
 fn first_diff(a: &str, b: &str) -> String {
